@@ -76,6 +76,7 @@ type oblReport struct {
 	Status    string `json:"status"`
 	Backend   string `json:"backend"`
 	Ms        int64  `json:"ms"`
+	MaxMs     int64  `json:"max_query_ms"`
 	Instances int    `json:"instances"`
 	Detail    string `json:"detail,omitempty"`
 }
@@ -400,7 +401,7 @@ func cmdCheck(args []string) {
 	violations += fallbackViolations
 
 	for _, o := range allObls {
-		rep := oblReport{Name: o.Name, Status: o.Status, Backend: o.Backend, Ms: o.Ms, Instances: len(o.Instances)}
+		rep := oblReport{Name: o.Name, Status: o.Status, Backend: o.Backend, Ms: o.Ms, MaxMs: o.MaxMs, Instances: len(o.Instances)}
 		solverMs += o.Ms
 		if o.Status != "discharged" && heldByFallback[oblFunc[o]] != nil {
 			rep.Status = "not-proved; function decided by bounded fallback " + strings.Join(heldByFallback[oblFunc[o]], ",")
